@@ -23,11 +23,15 @@ forgets a fact at every re-assignment and at every call that could write through
   MECH      in handle_auth the DATA request, the state change, auth_ok and check_external_auth happen only
             where the requested mechanism compared equal to the configured one; the unequal edge always
             passes rejected_error
-  AUTH-OK   every call of auth_ok is either under `configured mechanism == Anonymous`, or on the true edge
-            of the credential predicate of CRED; no caller outside the confirmed three functions
+  AUTH-OK   every call of auth_ok is under `configured mechanism == Anonymous`, or on the true edge of the
+            credential comparison of CRED, or (empty identity: the command's optional payload is None) where
+            `client_uid` is known to be Some; no caller outside the confirmed three functions
   CRED      check_external_auth: the decision is `client_uid` is Some and equals the number parsed from the
             identity the client sent (accepted idioms: map(|u| u == uid).unwrap_or(false), map_or(false,..),
             is_some_and(..), == Some(uid)); the identity handed to it is the payload of AUTH / DATA
+  UID       `Server.client_uid` is written only by Server::new from its parameter; Server::new is called only by
+            Authenticated::server with its own parameter; every caller of Authenticated::server passes
+            `peer_credentials().await?.unix_user_id()` of the socket it hands over
   FD        finalize enables fd passing and writes AGREE_UNIX_FD only under NEGOTIATE_UNIX_FD and only
             where the transport said it can pass fds
   PARSE     a line that does not parse (unknown command, unknown mechanism name, bad hex) must be
@@ -71,7 +75,7 @@ FSM = {
         "Cancel": {"REJECTED"}, "Error": {"REJECTED"}, "*": {"ERROR"},
     },
     "handle_auth_data": {
-        "Data": {"auth_ok", "check_external"},
+        "Data": {"auth_ok", "check_external", "REJECTED"},
         "Cancel": {"ERROR", "REJECTED"}, "Error": {"ERROR", "REJECTED"}, "*": {"ERROR"},
     },
     "finalize": {
@@ -325,10 +329,7 @@ def rule_mech(ctx, f, handlers, cmdinfo):
         ck = (c.dest[0], ())
         neq = "false" if c.is_("eq") else "true"
         within = vf.blocks_where(ck, neq) & vf.blocks_where(key, "Auth")
-        # start after the comparison
-        starts = [s for s in vf.succ_feasible(c.b)]
-        seen = vf.reach(starts, avoid=rej, within=within)
-        # blocks before the comparison result is known are all "within"; only look at blocks the switch leads to
+        # the blocks the unequal edge of the branch on the comparison result leads to
         sw = [sb for sb, t in mir.switches(body) if mir.op_place(t[1]) is not None and hs.ckey(body, mir.op_place(t[1])) == ck]
         ok = bool(sw)
         for sb in sw:
@@ -443,47 +444,81 @@ def cred_predicate(f, body, op):
     return False, "unrecognised decision expression (%s)" % n
 
 
+def identity_seeds(f, body, owner_root):
+    """locals of `body` holding the identity parameter (arg 2) of the enclosing fn `owner_root`"""
+    seeds = set()
+    for b2, i2, pl2, rv2, ln2 in mir.assignments(body):
+        for op in mir.rvalue_operands(rv2):
+            p = mir.op_place(op)
+            if p is not None and hs.upvar_field(p) is not None:
+                sb, sp = hs.upvar_source(f, body, p)
+                if sp is not None and sb.id == owner_root.id and sp[0] == 2:
+                    seeds.add(pl2[0])
+    if body.id == owner_root.id:
+        seeds.add(2)
+    return seeds
+
+
+def uid_equal_evidence(f, body, vf, b, id_locals):
+    """(True, '') when block b is only reached where `client_uid == Some(<number parsed from the identity>)`
+    evaluated to true; id_locals = locals from which the claimed identity must derive"""
+    st = vf.state_at_term(b) or {}
+    why = "not on the true edge of a recognised credential comparison"
+    for k, vals in st.items():
+        if vals != frozenset(["true"]) or k[1]:
+            continue
+        ok, info = cred_predicate(f, body, ["c", [k[0], []]])
+        if not ok:
+            if "recognised" not in info:
+                why = info
+            continue
+        der = mir.derives(body, set(id_locals))
+        capl = mir.operand_locals(info)
+        if not (capl and all(l in der for l in capl)):
+            why = "the value compared with client_uid does not derive from the identity sent by the client"
+            continue
+        return True, ""
+    return False, why
+
+
+def known_evidence(f, body, vf, b):
+    """block b is only reached where Server.client_uid is known to be Some"""
+    st = vf.state_at_term(b) or {}
+    for c in mir.calls(body):
+        if c.is_("is_some", "is_none") and "Option" in c.callee and c.args and is_client_uid(body, f, c.args[0]):
+            want = "true" if c.is_("is_some") else "false"
+            if st.get((c.dest[0], ())) == frozenset([want]):
+                return True
+    for sb, t in mir.switches(body):
+        sc = mir.switch_scrutinee(body, sb)
+        if sc[0] == "discr" and sc[2] == "core::option::Option":
+            cp = hs.canon(body, sc[1])
+            sbody, sp = hs.upvar_source(f, body, sc[1])
+            if hs.place_has_field(cp, "client_uid", SERVER) or (sp is not None and hs.place_has_field(sp, "client_uid", SERVER)):
+                if st.get(hs.pkey(cp)) == frozenset(["Some"]):
+                    return True
+    return False
+
+
+def empty_identity_evidence(body, vf, b, cmdkey):
+    """block b is only reached where the command's optional payload is None (empty identity)"""
+    if cmdkey is None:
+        return False
+    st = vf.state_at_term(b) or {}
+    for k, vals in st.items():
+        if k[0] == cmdkey[0] and len(k[1]) > len(cmdkey[1]) and k[1][:len(cmdkey[1])] == cmdkey[1] and vals == frozenset(["None"]):
+            return True
+    return False
+
+
 def rule_cred(ctx, f, cea_root):
     body = code(ctx, f, cea_root, hs.has_call("auth_ok"), "calls auth_ok")
     vf = hs.VarFacts(f, body)
     oks = [c for c in mir.calls(body) if c.callee == SERVER + "::auth_ok"]
     ctx.floor("CRED", "auth_ok call in check_external_auth", len(oks), 1)
-    good_sites = set()
+    seeds = identity_seeds(f, body, cea_root)
     for c in oks:
-        # the bool the call is control-dependent on
-        st = vf.state_at_term(c.b) or {}
-        found = False
-        why = "auth_ok is not on the true edge of any recognised credential test"
-        for k, vals in st.items():
-            if vals != frozenset(["true"]) or k[1]:
-                continue
-            ok, info = cred_predicate(f, body, ["c", [k[0], []]])
-            if not ok:
-                if "recognised" not in info:
-                    why = info
-                continue
-            # the claimed id derives from the identity argument
-            idl = set()
-            for l in range(1, len(body.locals)):
-                pass
-            seeds = set()
-            for b2, i2, pl2, rv2, ln2 in mir.assignments(body):
-                for op in mir.rvalue_operands(rv2):
-                    p = mir.op_place(op)
-                    if p is not None and hs.upvar_field(p) is not None:
-                        sb, sp = hs.upvar_source(f, body, p)
-                        if sp is not None and sb.id == cea_root.id and sp[0] == 2:
-                            seeds.add(pl2[0])
-            if hs.is_arg(body, 2) and body.id == cea_root.id:
-                seeds.add(2)
-            der = mir.derives(body, seeds)
-            capl = mir.operand_locals(info)
-            from_id = bool(capl) and all(l in der for l in capl)
-            if not from_id:
-                why = "the value compared with client_uid does not derive from the identity sent by the client"
-                continue
-            found = True
-            good_sites.add(c.b)
+        found, why = uid_equal_evidence(f, body, vf, c.b, seeds)
         ctx.ob("CRED", "check_external_auth:auth_ok-only-if-uid-known-and-equal", found,
                "auth_ok is reached only where client_uid is Some and equals the id parsed from the client's identity" if found else why,
                c.where)
@@ -495,12 +530,14 @@ def rule_cred(ctx, f, cea_root):
     silent = seen & set(mir.exits(body))
     ctx.ob("CRED", "check_external_auth:else-rejected", not silent,
            "every path that does not authenticate writes REJECTED (or propagates an error)", body.where)
-    return body, good_sites
+    return body
 
 
-def rule_auth_ok(ctx, f, handlers, cmdinfo, roots, cred_sites):
+def rule_auth_ok(ctx, f, handlers, cmdinfo, roots):
     had_root = roots["handle_auth_data"]
     n = 0
+    vfs = {}
+    expected = {roots["check_external_auth"].id, roots["handle_auth"].id, roots["handle_auth_data"].id}
     for b in f.all_bodies("zbus"):
         for c in mir.calls(b):
             if c.callee != SERVER + "::auth_ok" and c.declared != SERVER + "::auth_ok":
@@ -508,30 +545,36 @@ def rule_auth_ok(ctx, f, handlers, cmdinfo, roots, cred_sites):
             n += 1
             root = b.root
             rname = short(root)
-            if root == roots["check_external_auth"].id:
-                ok = c.b in cred_sites[1] and b.id == cred_sites[0].id
-                ctx.ob("AUTH-OK", "auth_ok-site:%s:after-credential-check" % rname, ok,
-                       "justified by the credential comparison (CRED)", c.where)
-                continue
-            hname = [h for h in ("handle_auth", "handle_auth_data") if roots[h].id == root]
-            if not hname:
+            if root not in expected:
                 ctx.ob("AUTH-OK", "auth_ok-site:%s:unexpected-caller" % rname, False,
                        "auth_ok called from a function outside the confirmed set", c.where)
-                continue
-            hname = hname[0]
-            _, body, vf = handlers[hname]
-            if b.id != body.id:
-                ctx.ob("AUTH-OK", "auth_ok-site:%s:unexpected-body" % rname, False, "auth_ok called from a nested closure", c.where)
-                continue
+            hname = [h for h in ("handle_auth", "handle_auth_data") if roots[h].id == root and handlers[h][1].id == b.id]
+            if hname:
+                _, body, vf = handlers[hname[0]]
+                cmdkey = cmdinfo[hname[0]][0]
+            else:
+                body = b
+                if b.id not in vfs:
+                    vfs[b.id] = hs.VarFacts(f, b)
+                vf = vfs[b.id]
+                cmdkey = None
             mk = mech_keys(f, body, vf, had_root)
             st = vf.state_at_term(c.b) or {}
-            anon = any(st.get(k) == frozenset(["Anonymous"]) for k in mk)
-            desc = describe_site(f, body, vf, c.b, cmdinfo[hname][0], mk)
-            ctx.ob("AUTH-OK", "auth_ok-site:%s[%s]:anonymous-or-credential-checked" % (rname, desc), anon,
-                   "OK is sent under `configured mechanism == Anonymous`" if anon else
-                   "OK is sent although the mechanism may be %s and no comparison with the peer credentials guards it" % (
-                       "|".join(sorted(set().union(*[st.get(k, frozenset(["?"])) for k in mk]))) if mk else "unknown"),
-                   c.where)
+            desc = describe_site(f, body, vf, c.b, cmdkey, mk)
+            reason = None
+            if any(st.get(k) == frozenset(["Anonymous"]) for k in mk):
+                reason = "OK is sent under `configured mechanism == Anonymous`"
+            else:
+                owner = f.bodies.get(root)
+                eq, why = uid_equal_evidence(f, body, vf, c.b, identity_seeds(f, body, owner) if owner is not None else set())
+                if eq:
+                    reason = "OK is sent only where client_uid is Some and equals the claimed identity"
+                elif known_evidence(f, body, vf, c.b) and empty_identity_evidence(body, vf, c.b, cmdkey):
+                    reason = "OK is sent for an empty identity only where client_uid is known (Some)"
+            mechs = "|".join(sorted(set().union(*[st.get(k, frozenset(["?"])) for k in mk]))) if mk else "not tested here"
+            ctx.ob("AUTH-OK", "auth_ok-site:%s[%s]:anonymous-or-credential-checked" % (rname, desc), reason is not None,
+                   reason or ("OK is sent although the mechanism may be %s and neither `client_uid == claimed id` nor "
+                              "`client_uid is known` (for an empty identity) guards it" % mechs), c.where)
     ctx.floor("AUTH-OK", "call sites of Server::auth_ok", n, 3)
     # identity handed to check_external_auth is the client's payload
     for hname, variant, fld in (("handle_auth", "Auth", 1), ("handle_auth_data", "Data", 0)):
@@ -550,6 +593,83 @@ def rule_auth_ok(ctx, f, handlers, cmdinfo, roots, cred_sites):
                 ok = k[0] == key[0] and k[1][:len(want)] == want
             ctx.ob("CRED", "%s:identity-is-%s-payload" % (hname, variant.upper()), ok,
                    "the identity checked is the payload of the client's %s command" % variant.upper(), c.where)
+
+
+def rule_uid(ctx, f, roots):
+    """UID: where Server.client_uid comes from"""
+    ws = [w for w in hs.writes_of_field(f, SERVER, "client_uid")
+          if "core::fmt::Debug" not in w[0].root and "core::clone::Clone" not in w[0].root]
+    ctx.floor("UID", "writes of Server.client_uid", len(ws), 1)
+    new = roots["new"]
+    argk = None
+    for wb, b, i, kind, rv, ln in ws:
+        ok = wb.root == new.id and kind == "agg"
+        k = None
+        if ok:
+            p = mir.op_place(rv)
+            cp = hs.canon(wb, p) if p is not None else None
+            ok = cp is not None and hs.is_arg(wb, cp[0]) and not cp[1]
+            k = cp[0] if ok else None
+        ctx.ob("UID", "client_uid-writer:" + short(wb.root), ok,
+               "client_uid is only ever initialised from Server::new's parameter", W(wb, ln))
+        argk = k if k is not None else argk
+    mb = hs.mut_borrows_of_field(f, SERVER, "client_uid")
+    ctx.ob("UID", "no-mutable-borrow-of-client_uid", not mb, "no `&mut self.client_uid`", mb[0][0].where if mb else "-")
+    if argk is None:
+        return
+    # callers of Server::new
+    aserver = ctx.one([b for b in f.find(name="server", adt=AUTHD, trait="")], "Authenticated::server")
+    argj = None
+    n = 0
+    for b in f.all_bodies("zbus"):
+        for c in mir.calls(b):
+            if c.callee != new.id:
+                continue
+            n += 1
+            ok = b.root == aserver.id
+            j = None
+            if ok and len(c.args) >= argk:
+                p = mir.op_place(c.args[argk - 1])
+                if p is not None:
+                    sb, sp = hs.upvar_source(f, b, p)
+                    if sp is not None and sb.id == aserver.id and hs.is_arg(sb, sp[0]) and not sp[1]:
+                        j = sp[0]
+            ctx.ob("UID", "Server::new-caller:" + short(b.root), ok and j is not None,
+                   "Server::new is called by Authenticated::server with its own client_uid parameter", c.where)
+            argj = j if j is not None else argj
+    ctx.floor("UID", "callers of Server::new", n, 1)
+    if argj is None:
+        return
+    n = 0
+    for b in f.all_bodies("zbus"):
+        for c in mir.calls(b):
+            if c.callee != aserver.id:
+                continue
+            n += 1
+            a = c.args[argj - 1] if len(c.args) >= argj else None
+            ok = False
+            why = "client_uid handed to the server handshake is not the peer credential of the same socket"
+            if a is not None and mir.op_const(a) is None:
+                o = mir.origin(b, a)
+                if o[0] == "call" and o[1].callee.endswith("ConnectionCredentials::unix_user_id") and o[1].args:
+                    pcs = [x for x in mir.calls(b) if x.is_("peer_credentials")]
+                    recv = mir.op_local(o[1].args[0])
+                    sock = mir.op_place(c.args[0])
+                    sroot = hs.canon(b, sock)[0] if sock is not None else None
+                    for pc in pcs:
+                        der = mir.derives(b, {pc.dest[0]})
+                        same_sock = sroot is not None and pc.args and any(
+                            l in mir.derives(b, {sroot}) for l in mir.operand_locals(pc.args[0]))
+                        if recv in der and same_sock:
+                            ok = True
+            elif a is not None:
+                o = hs.agg_of(b, a)
+                ok = False
+                why = "a constant is passed as client_uid"
+            ctx.ob("UID", "Authenticated::server-caller:" + short(b.root), ok,
+                   "client_uid = peer_credentials() of the socket being authenticated .unix_user_id()" if ok else why, c.where)
+    ctx.floor("UID", "callers of Authenticated::server", n, 1)
+
 
 
 def rule_step(ctx, f, roots, handlers, cmdinfo, mech_cmps):
@@ -735,7 +855,15 @@ def rule_perform(ctx, f, roots):
 def rule_helpers(ctx, f, roots):
     spec = {"auth_ok": "Ok", "rejected_error": "Rejected", "unsupported_command_error": "Error"}
     for h, variant in spec.items():
-        body = code(ctx, f, roots[h], hs.has_call("write_command"), "calls write_command")
+        def pred(b):
+            return bool(mir.calls_to(b, "write_command")) or any(
+                rv[0] == "agg" and rv[1] == "adt" and rv[2] == CMD for bi, i, pl, rv, ln in mir.assignments(b))
+        cands = hs.code_bodies(f, roots[h].id, pred)
+        if len(cands) != 1:
+            ctx.ob("HELPERS", "%s:always-writes-%s" % (h, variant.upper()), False,
+                   "%s neither builds nor writes a command (%d candidate bodies)" % (h, len(cands)), roots[h].where)
+            continue
+        body = cands[0]
         vf = hs.VarFacts(f, body)
         wcs = [c for c in mir.calls(body) if c.callee == COMMON + "::write_command"]
         good = []
@@ -877,7 +1005,12 @@ def run(ctx):
         "and a panic-site audit of the handshake modules (PANIC).")
     ctx.not_decided = ("transport behaviour (recvmsg/sendmsg results), hex/uuid crates, task scheduling; CRED recognises four "
                        "spellings of the credential comparison only.")
-    f = ctx.facts("K1")
+    check_config(ctx, ctx.facts("K1"))
+    if ctx.tier == "thorough":
+        check_config(hs.Tagged(ctx, "K3:"), ctx.facts("K3"))
+
+
+def check_config(ctx, f):
     names = ["new", "auth_ok", "check_external_auth", "unsupported_command_error", "rejected_error", "next_step",
              "handle_auth", "handle_auth_data", "finalize"]
     roots = {n: fn(ctx, f, n) for n in names}
@@ -887,8 +1020,9 @@ def run(ctx):
         handlers[h] = (roots[h], body, hs.VarFacts(f, body))
     cmdinfo = rule_arms(ctx, f, handlers)
     cmps = rule_mech(ctx, f, handlers, cmdinfo)
-    cred = rule_cred(ctx, f, roots["check_external_auth"])
-    rule_auth_ok(ctx, f, handlers, cmdinfo, roots, cred)
+    rule_cred(ctx, f, roots["check_external_auth"])
+    rule_auth_ok(ctx, f, handlers, cmdinfo, roots)
+    rule_uid(ctx, f, roots)
     rule_step(ctx, f, roots, handlers, cmdinfo, cmps)
     rule_dispatch(ctx, f, roots)
     rule_perform(ctx, f, roots)
